@@ -1,4 +1,5 @@
 import FeedVerif.Model.Api
+import FeedVerif.Model.Proto
 /-! Driver glue for M-api: `api parse <9 flags>` → `keys|bozo|exc|ran|final` -/
 namespace FeedVerif.Api
 
@@ -24,6 +25,21 @@ def driverStep (ws : List String) : String :=
       ",".intercalate (sortStrings r.keys) ++ "|" ++ (if r.bozo then "1" else "0") ++ "|" ++ excName r.exc ++ "|" ++
         ",".intercalate (r.ran.map parserName) ++ "|" ++ (match r.final with | none => "-" | some p => parserName p)
     | _ => "bad-op"
+  | "hdr" :: e :: n :: rest =>
+    -- `hdr <n> k v … (n response pairs) k v … (caller pairs)`: names / values as hex fields → the merged dict, sorted
+    match decFlag e, n.toNat?, rest.mapM Proto.dec with
+    | some e, some n, some fs =>
+      let rec pairs : List String → List (String × String)
+        | k :: v :: r => (k, v) :: pairs r
+        | _ => []
+      let all := pairs fs
+      let d := resultHeaders (fun s => s.map Char.toLower) e (all.take n) (all.drop n)
+      ";".intercalate (sortStrings (d.map fun p => Proto.enc p.1 ++ "=" ++ Proto.enc p.2))
+    | _, _, _ => "bad-op"
+  | ["base", href, cl, s2, s1] =>
+    match Proto.dec href, Proto.dec cl, Proto.dec s2, Proto.dec s1 with
+    | some href, some cl, some s2, some s1 => Proto.enc (baseUri (fun _ _ => s2) (fun _ => s1) href cl)
+    | _, _, _, _ => "bad-op"
   | _ => "bad-op"
 
 end FeedVerif.Api
